@@ -9,6 +9,7 @@ import (
 	"sync/atomic"
 
 	"github.com/gookit/color"
+	"github.com/zishang520/engine.io/v2/verifhook"
 )
 
 // Log flags that control the output format
@@ -97,6 +98,7 @@ func (d *Log) Info(message string, args ...any) {
 
 // Debugf prints a formatted message with debug color if debug mode is enabled
 func (d *Log) Debugf(message string, args ...any) {
+	verifhook.At("log", message)
 	if DEBUG && d.checkNamespace(d.Prefix()) {
 		d.Logger.Println(color.Debug.Sprintf(message, args...))
 	}
